@@ -7,6 +7,7 @@ from collections import Counter
 
 import vlib
 from props import _store as S
+from props import _c10obs as O
 
 LEVEL = "proof"
 HARNESSES = [("h_store", "rel")]
@@ -49,6 +50,12 @@ META = {
             "named clause of wf) and the loaded state is equivalent to the live one: same tip, same blocks with equal "
             "persisted projection, finalized mark and endorsedBy multiset (rebuilt by recoverEndorsements), all loaded "
             "blocks clean; ignored are only the dirty bit, the map order and BLOCK_DELETED indices (never loaded); "
+            "C10_reload_obs / C10_crash_obs - the executable observation load_obs (Store/ReloadObsDefs.v: load the storage "
+            "image and show per tree block parent, height, status word, payload ids, containing endorsements, refcount, "
+            "finalized mark, endorsedBy) of the storage of any completed save of any guarded history succeeds and agrees "
+            "entry by entry with the observation of the live state at that save (endorsedBy up to order), whatever ran "
+            "after the save; this observation is what the correspondence stage compares field by field with a fresh "
+            "library instance loaded from the real storage (ALT tree; VBK/BTC reload is covered by the oracle only); "
             "C10_reload_chainwork - the chain work recomputed from that storage is the parent-path sum in the live tree; "
             "C10_reload_step_equiv / C10_reload_continues - every operation on equivalent states has the same outcome "
             "(Done or the same Abort code) and equivalent results, hence the reloaded instance follows the live one op "
@@ -87,7 +94,9 @@ META = {
     "note": "Trusted: Coq kernel, extraction, OCaml driver (ocaml/Store_driver.ml), C++ harness (harness/h_store.cpp "
             "over harness/world.hpp), generators, the micro-op synthesis in props/_store.py (the model is driven by "
             "the observed per-op change of each ALT block; compared: status words and tip after every op, model dirty "
-            "set within isDirty(), load result vs reloaded instance). Exclusions of the oracle are listed in the "
+            "set within isDirty(), load result vs reloaded instance; ocaml/StoreObs_driver.ml + props/_c10obs.py: every "
+            "field of every reloaded ALT block vs load_obs of the model's storage image, a difference already present "
+            "between the live model state and the live instance counts as a synthesis desync, not as a load finding). Exclusions of the oracle are listed in the "
             "evidence (persisted_equivalence). Deleted blocks are not persisted state: a reloaded instance forgets the "
             "FAILED_BLOCK/FAILED_CHILD marks that deleteTemporarily keeps on removed blocks.",
     "technique": "Coq proof (invariant over op histories; chain-work recovery; finalization vs dirty blocks) + "
@@ -375,6 +384,11 @@ def run(ctx):
     okm, model, mlog = vlib.build_model("Store")
     if not okm:
         ctx.broken.append("model-build: " + mlog[-300:])
+    oko, omodel, olog = vlib.build_model("StoreObs")
+    if not oko:
+        ctx.broken.append("model-build StoreObs: " + olog[-300:])
+    if os.environ.get("VERIF_C10_OBS_MODEL"):      # self-test only: a mutated copy of the extracted model
+        omodel = os.environ["VERIF_C10_OBS_MODEL"]
     stats = Counter()
     t0 = time.time()
 
@@ -489,6 +503,11 @@ def run(ctx):
                 # name the correspondence (outcome rule 3)
                 for t in cbad[:3]:
                     ctx.broken.append(t[:700])
+        if oko and entry[0] == "hist":
+            obad = O.reload_obs_correspondence(ctx, omodel, sc, res, gens, stats)
+            if obad and not fails:
+                for t in obad[:3]:
+                    ctx.broken.append(t[:1000])
         if rc != 0:
             ctx.broken.append("runner: h_store rc=%d %s" % (rc, err[-300:]))
         for tagbase, what, detail in fails:
